@@ -137,7 +137,7 @@ pub fn fill_kind(kind: &str, w: &[f32], with_frags: bool) -> String {
 /// Screen-space triangle generator shared by C04/C05. Returns three (x, y) pairs and a mode tag.
 pub fn gen_tri_xy(rng: &mut Rng) -> ([(f32, f32); 3], &'static str) {
     let size = *rng.pick(&[4i64, 8, 16, 32]);
-    let mode = rng.below(12);
+    let mode = rng.below(13);
     let mut p = [(0f32, 0f32); 3];
     let tag;
     match mode {
@@ -202,6 +202,13 @@ pub fn gen_tri_xy(rng: &mut Rng) -> ([(f32, f32); 3], &'static str) {
             p[0] = (rng.f32_in(0.0, size as f32), (y - rng.range(1, 5) as f32).max(0.0));
             p[1] = (rng.f32_in(0.0, size as f32), y);
             p[2] = (rng.f32_in(0.0, size as f32), y + 1.0);
+        }
+        12 => {
+            tag = "wide";
+            // long scanlines (up to 96 px) with few rows
+            for q in p.iter_mut() {
+                *q = (rng.f32_in(0.0, 96.0), rng.f32_in(0.0, 6.0));
+            }
         }
         8 => {
             tag = "off-grid-negative";
